@@ -366,7 +366,44 @@ def check_shipped(spec: dict) -> dict:
     return {"nontrivial": len(rules.operator_kinds(ref["conditions"])) >= 2, "classes": []}
 
 
-SUBCHECKS = {"wellformed": check_wellformed, "scaling": check_ruleset_scaling, "illformed": check_illformed,
+def check_corrupted(spec: dict) -> dict:
+    """ a single-token corruption of a well-formed file: whatever the real parser ACCEPTS must still be read the way the
+        documented grammar reads it (reference parser accepts it too and gives the same rules); rejecting is always fine """
+    try:
+        real = _parse_real(spec)
+    except Exception:  # pylint: disable=broad-except
+        return {"nontrivial": True, "classes": [f"{spec['mutation']}_rejected"]}
+    try:
+        reference = rules.parse_file("\n".join(spec["files"]))
+    except (rules.RefSyntaxError, IndexError, ValueError, KeyError) as err:
+        raise Violation("corrupted_accepted_outside_grammar", {"mutation": spec["mutation"], "files": spec["files"],
+                                                               "reference_error": str(err)[:200],
+                                                               "rules": [str(rule) for rule in real]}) from err
+    if [rule.name for rule in real] != [rule["name"] for rule in reference["rules"]]:
+        raise Violation("corrupted_rule_names", {"files": spec["files"], "got": [rule.name for rule in real],
+                                                 "want": [rule["name"] for rule in reference["rules"]]})
+    closures: dict = {}
+    for rule, ref in zip(real, reference["rules"]):
+        closure = set(ref["superiors"])
+        for parent in ref["superiors"]:
+            closure |= closures.get(parent, set())
+        closures[ref["name"]] = closure
+        got = (rule.category, rule.cutoff, rule.neighbourhood, list(rule.superiors))
+        want = (ref["category"], ref["cutoff_kb"] * 1000, ref["neighbourhood_kb"] * 1000, sorted(closure))
+        if got != want:
+            raise Violation("corrupted_fields", {"files": spec["files"], "rule": rule.name, "got": list(got), "want": list(want)})
+        if not set(rules.profiles_of(ref["conditions"])) <= set(spec["profiles"]):
+            raise Violation("corrupted_unknown_profile_accepted", {"files": spec["files"], "rule": rule.name})
+        if not rules.has_positive(ref["conditions"]):
+            raise Violation("corrupted_negative_only_accepted", {"files": spec["files"], "rule": rule.name})
+        saved = rule.cutoff
+        rule.cutoff = 10 ** 6
+        _compare_meaning(rule, ref["conditions"], spec["sample_seed"], "corrupted_conditions")
+        rule.cutoff = saved
+    return {"nontrivial": True, "classes": [f"{spec['mutation']}_still_accepted"]}
+
+
+SUBCHECKS = {"corrupted": check_corrupted, "wellformed": check_wellformed, "scaling": check_ruleset_scaling, "illformed": check_illformed,
              "shipped": check_shipped}
 
 
@@ -443,6 +480,31 @@ def rule_files(draw, force_unit: bool = False) -> dict:
     multipliers = [1.0, 1.0] if force_unit else draw(st.sampled_from(MULTIPLIERS))
     return {"files": files, "profiles": profiles, "categories": categories, "multipliers": multipliers,
             "mode": draw(st.sampled_from(["create_rules", "chained"])), "sample_seed": draw(st.integers(0, 1000))}
+
+
+@st.composite
+def corrupted_files(draw) -> dict:
+    base = draw(rule_files(force_unit=True))
+    tokens = rules.tokenize("\n".join(base["files"]))
+    index = draw(st.integers(0, len(tokens) - 1))
+    mutation = draw(st.sampled_from(["delete", "duplicate", "swap", "replace", "insert_paren", "insert_op"]))
+    if mutation == "delete":
+        tokens = tokens[:index] + tokens[index + 1:]
+    elif mutation == "duplicate":
+        tokens = tokens[:index + 1] + tokens[index:]
+    elif mutation == "swap" and index + 1 < len(tokens):
+        tokens[index], tokens[index + 1] = tokens[index + 1], tokens[index]
+    elif mutation == "replace":
+        tokens[index] = draw(st.sampled_from(tokens + ["and", "or", "not", "(", ")", ",", "cds", "minimum", "[", "]"]))
+    elif mutation == "insert_paren":
+        tokens.insert(index, draw(st.sampled_from(["(", ")"])))
+    else:
+        tokens.insert(index, draw(st.sampled_from(["and", "or", "not"])))
+    if not tokens:
+        tokens = ["RULE"]
+    text = _join(tokens, draw(st.lists(st.integers(0, 4), min_size=3, max_size=10)))
+    return {"files": [text], "profiles": base["profiles"], "categories": base["categories"], "multipliers": [1.0, 1.0],
+            "mode": "chained", "sample_seed": base["sample_seed"], "mutation": mutation}
 
 
 def _simple_rule(name: str, category: str, conditions: str, extra: str = "") -> str:
@@ -592,6 +654,7 @@ def shipped_cases(seed: int, worlds_per_rule: int):
 
 def run(ctx) -> None:
     ctx.hyp("wellformed", rule_files(), max_examples=ctx.pick(700, 20000), shards=ctx.pick(8, 16))
+    ctx.hyp("corrupted", corrupted_files(), max_examples=ctx.pick(1200, 40000), shards=ctx.pick(8, 16))
     ctx.hyp("scaling", rule_files(), max_examples=ctx.pick(100, 2000), shards=ctx.pick(4, 16))
     for kind in ILLFORMED_KINDS:
         generated = kind.startswith("generated")
